@@ -37,6 +37,7 @@ def stepSt (s : St) : List String → St × String
   | ["ritems"] => (s, showItems s.fm.reverse)
   | ["po_new"] => ({ s with ps := [] }, "ok")
   | ["pset", n, t, v] => ({ s with ps := setParam s.ps n t v }, "ok")
+  | ["pset_throw", n, v] => ({ s with ps := setParam s.ps n "thr" v }, "ok")   -- failed attempts are no-ops
   | ["pget", n, t, d] => let (ps, v) := getParam s.ps n t d; ({ s with ps := ps }, v)
   | ["phas", n] => (s, bit (hasParam s.ps n))
   | ["prem", n] => ({ s with ps := removeParam s.ps n }, "ok")
